@@ -629,7 +629,7 @@ func (cfg *c03Config) run(r *lib.Rng) (res c03Result) {
 
 	// which checkpoints to resume from
 	var ks []int
-	maxK := 8
+	maxK := 7
 	if cfg.opt {
 		maxK = 4 // every brand-new patcher that meets a bsdiff series allocates a 32 MiB cache: ~0.1 s
 	}
@@ -882,6 +882,10 @@ func runC03(c *Ctx) error {
 			return err
 		}
 		comps := []lib.Compression{{Algo: pwr.CompressionAlgorithm_NONE}, gz[pr.Intn(3)], br[[]int{0, 0, 1, 2}[pr.Intn(4)]]}
+		if !thorough && pi%2 == 1 {
+			// quick tier: the second pair runs uncompressed and under one of the two codecs
+			comps = []lib.Compression{comps[0], comps[1+int(c.Seed+uint64(pi/2))%2]}
+		}
 		var jobs []*job
 		for _, comp := range comps {
 			var plain *lib.DiffResult
